@@ -19,6 +19,10 @@ structure Handle where
   name : String
   mode : Mode
   pos  : Nat
+  /-- write handles: the bytes accepted so far, newest first; they become the file at `close`.
+      Output handles are append-only here (libmspack never seeks an output handle), which keeps a
+      one-byte `write` O(1) when the model is executed. -/
+  out  : Bytes := []
   deriving Repr
 
 /-- misuse of the interface (what the harness prints as MONITOR lines) -/
@@ -58,96 +62,85 @@ structure World where
 
 abbrev M := StateM World
 
-/-- count the call; `true` = the fault plan makes it fail -/
-def tick (k : Kind) : M Bool := do
-  let w ← get
-  let c := w.counts.bump k
-  set { w with counts := c }
-  return w.plan.contains (k, c.get k)
+/-! The primitives are written as explicit state-passing functions (`M α = World → α × World`)
+so that their effect on the ledger can be read off (and proved) by unfolding. -/
 
-def note (m : Misuse) : M Unit := modify fun w => { w with misuse := m :: w.misuse }
+/-- count the call; `true` = the fault plan makes it fail -/
+def tick (k : Kind) : M Bool := fun w =>
+  let c := w.counts.bump k
+  (w.plan.contains (k, c.get k), { w with counts := c })
+
+def note (m : Misuse) : M Unit := fun w => ((), { w with misuse := m :: w.misuse })
 
 /-- `sys->alloc`: id of the new block, `none` = NULL -/
-def alloc : M (Option Nat) := do
-  if ← tick .alloc then return none
-  let w ← get
-  let id := w.nextId
-  set { w with nextId := id + 1, liveAllocs := id :: w.liveAllocs }
-  return some id
+def alloc : M (Option Nat) := fun w =>
+  let (failed, w) := tick .alloc w
+  if failed then (none, w)
+  else (some w.nextId, { w with nextId := w.nextId + 1, liveAllocs := w.nextId :: w.liveAllocs })
 
 /-- `sys->free(p)`; `none` = NULL (allowed) -/
-def free (p : Option Nat) : M Unit := do
+def free (p : Option Nat) : M Unit := fun w =>
   match p with
-  | none => pure ()
+  | none => ((), w)
   | some id =>
-    let w ← get
-    if w.liveAllocs.contains id then set { w with liveAllocs := w.liveAllocs.erase id }
-    else note (.freeUnknown id)
+    if w.liveAllocs.contains id then ((), { w with liveAllocs := w.liveAllocs.erase id })
+    else note (.freeUnknown id) w
 
 /-- `sys->open(sys, name, mode)`; reading a missing file fails like a host would -/
-def open_ (name : String) (mode : Mode) : M (Option Nat) := do
-  if ← tick .open_ then return none
-  let w ← get
-  match mode, w.files.lookup name with
-  | .read, none => return none
-  | _, _ =>
-    let id := w.nextId
+def open_ (name : String) (mode : Mode) : M (Option Nat) := fun w =>
+  let (failed, w) := tick .open_ w
+  if failed then (none, w)
+  else if mode = .read ∧ (w.files.lookup name).isNone then (none, w)
+  else
     let files := if mode = .write then (name, []) :: w.files.filter (·.1 ≠ name) else w.files
-    set { w with nextId := id + 1, files := files, liveHandles := ⟨id, name, mode, 0⟩ :: w.liveHandles }
-    return some id
+    (some w.nextId, { w with nextId := w.nextId + 1, files := files,
+                             liveHandles := ⟨w.nextId, name, mode, 0, []⟩ :: w.liveHandles })
 
 def findHandle (w : World) (id : Nat) : Option Handle := w.liveHandles.find? (·.id = id)
 
 /-- `sys->close(fh)` -/
-def close (id : Nat) : M Unit := do
-  let w ← get
+def close (id : Nat) : M Unit := fun w =>
   match findHandle w id with
-  | some _ => set { w with liveHandles := w.liveHandles.filter (·.id ≠ id) }
-  | none => note (.closeUnknown id)
+  | some h =>
+    let files := if h.mode = .write then (h.name, h.out.reverse) :: w.files.filter (·.1 ≠ h.name) else w.files
+    ((), { w with liveHandles := w.liveHandles.filter (·.id ≠ id), files := files })
+  | none => note (.closeUnknown id) w
 
-def setHandle (h : Handle) : M Unit :=
-  modify fun w => { w with liveHandles := w.liveHandles.map fun x => if x.id = h.id then h else x }
+/-- replace the handle with this id (position update) -/
+def setHandle (h : Handle) (w : World) : World :=
+  { w with liveHandles := w.liveHandles.map fun x => if x.id = h.id then h else x }
 
 /-- `sys->read(fh, buf, n)`: the bytes delivered, `none` = a negative return -/
-def read (id : Nat) (n : Nat) : M (Option Bytes) := do
-  let failed ← tick .read
-  let w ← get
+def read (id : Nat) (n : Nat) : M (Option Bytes) := fun w =>
+  let (failed, w) := tick .read w
   match findHandle w id with
-  | none => note (.useClosed id); return none
+  | none => (none, (note (.useClosed id) w).2)
   | some h =>
-    if h.mode ≠ .read then note (.badMode id); return none
-    else if failed then return none
+    if h.mode ≠ .read then (none, (note (.badMode id) w).2)
+    else if failed then (none, w)
     else
-      let data := ((w.files.lookup h.name).getD []).drop h.pos |>.take n
-      setHandle { h with pos := h.pos + data.length }
-      return some data
+      let data := (((w.files.lookup h.name).getD []).drop h.pos).take n
+      (some data, setHandle { h with pos := h.pos + data.length } w)
 
 /-- `sys->write(fh, buf, n)`: bytes accepted, `none` = a negative return (a planned failure
     accepts nothing) -/
-def write (id : Nat) (bs : Bytes) : M (Option Nat) := do
-  let failed ← tick .write
-  let w ← get
+def write (id : Nat) (bs : Bytes) : M (Option Nat) := fun w =>
+  let (failed, w) := tick .write w
   match findHandle w id with
-  | none => note (.useClosed id); return none
+  | none => (none, (note (.useClosed id) w).2)
   | some h =>
-    if h.mode ≠ .write then note (.badMode id); return none
-    else if failed then return none
+    if h.mode ≠ .write then (none, (note (.badMode id) w).2)
+    else if failed then (none, w)
     else
-      let old := (w.files.lookup h.name).getD []
-      let new := old.take h.pos ++ bs ++ old.drop (h.pos + bs.length)
-      set { w with files := (h.name, new) :: w.files.filter (·.1 ≠ h.name) }
-      setHandle { h with pos := h.pos + bs.length }
-      return some bs.length
+      (some bs.length, setHandle { h with pos := h.pos + bs.length, out := bs.reverse ++ h.out } w)
 
 /-- `sys->seek(fh, off, MSPACK_SYS_SEEK_START)`: `true` = failure (non-zero return) -/
-def seekStart (id : Nat) (off : Nat) : M Bool := do
-  let failed ← tick .seek
-  let w ← get
+def seekStart (id : Nat) (off : Nat) : M Bool := fun w =>
+  let (failed, w) := tick .seek w
   match findHandle w id with
-  | none => note (.useClosed id); return true
+  | none => (true, (note (.useClosed id) w).2)
   | some h =>
-    if failed then return true
-    else setHandle { h with pos := off }; return false
+    if failed then (true, w) else (false, setHandle { h with pos := off } w)
 
 /-- nothing is live and nothing was misused -/
 def World.clean (w : World) : Prop := w.liveAllocs = [] ∧ w.liveHandles = [] ∧ w.misuse = []
